@@ -499,4 +499,49 @@ example : let A := adjMat 3 [(0, 2), (0, 1), (1, 2)]
     (List.range 3).map (retDeg A) = [0, 1, 2] ∧ (List.range 3).map (advDeg A) = [2, 1, 0] ∧
     retClust A = [0, 0, 1] ∧ advClust A = [1, 0, 0] := by decide +kernel
 
+/-! ## the class, composed -/
+
+/-- **`VisibilityGraph(x, timings=t, missing_values=True)`** with as many strictly
+increasing timings as samples: never fails, and `A[a,b]` (`a < b`) is set exactly when
+`a` and `b` are naturally visible (missing samples block and stay isolated). -/
+theorem class_nvg_iff (x : List Val) (t : List Rat) (ht : t.length = x.length)
+    (inc : ∀ a b, a < b → b < x.length → tAt t a < tAt t b) :
+    ∃ log, classLog x (some t) true false = .ok log ∧
+      ∀ a b, (a, b) ∈ log ↔ a < b ∧ b < x.length ∧ NVisible x t a b := by
+  rw [class_nvg_missing]
+  exact nvg_mv_iff x t x.length
+    ⟨Nat.le_refl _, by omega, by intro m hm; cases hm; simp [nanMask], inc⟩
+
+/-- the same with the default timings `0, 1, 2, …`, for every series -/
+theorem class_nvg_iff_default (x : List Val) :
+    ∃ log, classLog x none true false = .ok log ∧
+      ∀ a b, (a, b) ∈ log ↔ a < b ∧ b < x.length ∧ NVisible x (defaultTimings x.length) a b := by
+  rw [class_default_timings, class_nvg_missing]
+  exact nvg_mv_iff x _ x.length
+    (defaultTimings_good x _ (by intro m hm; cases hm; simp [nanMask]))
+
+/-- `missing_values=False` on a series without NaN -/
+theorem class_nvg_iff_plain (x : List Val) (t : List Rat) (ht : t.length = x.length)
+    (inc : ∀ a b, a < b → b < x.length → tAt t a < tAt t b)
+    (hx : ∀ k, k < x.length → valAt x k ≠ none) :
+    ∃ log, classLog x (some t) false false = .ok log ∧
+      ∀ a b, (a, b) ∈ log ↔ a < b ∧ b < x.length ∧ NVisible x t a b := by
+  rw [class_nvg_plain]
+  exact nvg_iff x t x.length ⟨Nat.le_refl _, by omega, (by intro m hm; cases hm), inc⟩ hx
+
+/-- `horizontal=True, missing_values=False` on a series without NaN -/
+theorem class_hvg_iff_plain (x : List Val) (tm : Option (List Rat))
+    (hx : ∀ k, k < x.length → valAt x k ≠ none) :
+    ∃ log, classLog x tm false true = .ok log ∧
+      ∀ a b, (a, b) ∈ log ↔ a < b ∧ b < x.length ∧ HVisible x a b := by
+  obtain ⟨log, hlog, hmem⟩ := hvg_iff x x.length (Nat.le_refl _) hx
+  refine ⟨log, ?_, hmem⟩
+  simp only [classLog, Bool.not_true, Bool.false_eq_true, if_false, hlog, bind_ok]
+
+example : ∃ log, classLog exX (some exT) true false = .ok log ∧
+    ∀ a b, (a, b) ∈ log ↔ a < b ∧ b < 5 ∧ NVisible exX exT a b :=
+  class_nvg_iff exX exT rfl
+    (good_of_steps exX exT none 5 (by decide) (by decide) (by intro m h; cases h)
+      (by decide +kernel)).inc
+
 end Pyunicorn.Visibility
